@@ -183,12 +183,12 @@ def run_block(ck, runner, stmts, comp, stats, threads=4):
     for _, sql in stmts:
         flat.append(sql)
         flat.extend(DUMP)
-    res = runner.run(flat, threads=threads, timeout=90)
+    res = runner.run(flat, threads=threads, timeout=90, retry_factor=1)
     if isinstance(res, dict):
         # isolate the killer: run each statement alone (after the setup)
         stats["blocks_with_crash"] = stats.get("blocks_with_crash", 0) + 1
         for kind, sql in stmts:
-            r1 = runner.run(list(SETUP) + [sql, "SELECT 1"], threads=threads, timeout=60)
+            r1 = runner.run(list(SETUP) + [sql, "SELECT 1"], threads=threads, timeout=60, retry_factor=1)      # three-row tables: 60 s is ample under any load
             ck.count(comp, 1)
             if isinstance(r1, dict):
                 KILLERS.add(sql)
